@@ -223,3 +223,64 @@ class UF:
                 self.ctx.space.add(z3.Implies(same, pv.var == v.var))
             self.table.append((key, v))
         return v
+
+
+# ------------------------------------------------------------------ math patches bound to the current context
+CURRENT = [None]
+
+
+def bind(ctx):
+    """Bind the environment models to the harness context of the current path."""
+    CURRENT[0] = ctx
+    _TRIG[0] = TrigTable(ctx)
+    _UFS.clear()
+
+
+_TRIG = [None]
+_UFS = {}
+
+
+def _uf(name, concrete):
+    if name not in _UFS:
+        _UFS[name] = UF(CURRENT[0], name, concrete)
+    return _UFS[name]
+
+
+def m_hypot(*xs):
+    return real_hypot(CURRENT[0], *xs)
+
+
+def m_sqrt(x):
+    return real_sqrt(CURRENT[0], x)
+
+
+def m_cos(x):
+    return _TRIG[0].cos(x)
+
+
+def m_sin(x):
+    return _TRIG[0].sin(x)
+
+
+def m_atan2(y, x):
+    return _uf("atan2", math.atan2)(y, x)
+
+
+def m_asin(x):
+    return _uf("asin", math.asin)(x)
+
+
+def m_acos(x):
+    return _uf("acos", math.acos)(x)
+
+
+MATH_MODELS = [
+    "math.hypot/sqrt: fresh h >= 0 with h*h == sum of squares (exact over the reals)",
+    TrigTable.MODEL,
+    "math.atan2/asin/acos: uninterpreted functions (functional consistency only)",
+]
+
+
+def math_patches():
+    return {math.hypot: m_hypot, math.sqrt: m_sqrt, math.cos: m_cos, math.sin: m_sin,
+            math.atan2: m_atan2, math.asin: m_asin, math.acos: m_acos}
